@@ -640,11 +640,14 @@ def localized_number_guard(ck, F, rule="TABLE-io"):
     """Cell::get_localized_text swaps the decimal point for the locale's decimal symbol: the guard that decides
     whether to substitute reads that same symbol (`symbols.decimal`), not another table entry (fr groups with a
     no-break space but still writes `,` for decimals)."""
-    b = ck.need(F.one, "Cell::get_localized_text")
+    b0 = ck.need(F.one, "Cell::get_localized_text")
     SYM = "ironcalc_base::locale::NumbersSymbols"
-    reps = [(bi, t) for bi, t in b.calls() if (b.callee_q(t) or "").rsplit("::", 1)[-1] in ("replace", "replacen")]
-    ck.ob(rule, "get_localized_text|substitution", len(reps) >= 1, "no decimal-point substitution found in get_localized_text (anchor lost?)", b.file, b.line)
-    for bi, t in reps:
+    from rules_struct import unit_bodies
+    reps = []
+    for bb in unit_bodies(F, b0, helpers=True):
+        reps += [(bb, bi, t) for bi, t in bb.calls() if (bb.callee_q(t) or "").rsplit("::", 1)[-1] in ("replace", "replacen")]
+    ck.ob(rule, "get_localized_text|substitution", len(reps) >= 1, "no decimal-point substitution found in get_localized_text or its private helpers (anchor lost?)", b0.file, b0.line)
+    for b, bi, t in reps:
         used = {x[2] for a in t["args"] for x in sources(b, a) if x[0] == "field" and x[1] == SYM}
         guards = set()
         for d in b.dominators_of(bi):
